@@ -244,6 +244,7 @@ impl Property for C02 {
                             if spans_year {
                                 ctx.hit("program_spanning_a_year");
                             }
+                            ctx.begin(|| case_json(cfg, &prog, pr));
                             match run_case(cfg, &prog, pr) {
                                 Ok(o) => {
                                     ctx.outcome(o);
